@@ -63,6 +63,9 @@ func writeResult(path string, res *spec.RunResult) {
 // collect copies counters from the world into the result.
 func (w *World) collect() {
 	res := w.Res
+	if w.Net == nil {
+		return
+	}
 	h, n := w.Net.LogHash()
 	res.EventHash = fmt.Sprintf("%016x", h)
 	res.Events = n
